@@ -29,6 +29,8 @@ def logpdf(fam: str, x, p: dict):
         return x * np.log(pr) + (1 - x) * np.log1p(-pr)
     if fam == "poisson":
         return stats.poisson.logpmf(x, g("rate"))
+    if fam == "mvn3":
+        return stats.norm.logpdf(x, g("loc"), g("scale")).sum(axis=-1)
     if fam == "uniform_lw":
         lo, w = g("low"), g("width")
         inside = (x > lo) & (x < lo + w)
